@@ -1,6 +1,7 @@
 mod analysis;
 mod check;
 mod gen;
+mod hostile;
 mod oracle;
 mod profiles;
 mod props;
